@@ -4699,6 +4699,17 @@ class PyCdlib:
         # Above we checked to make sure we got at least one old path, so we
         # don't need to worry about the else situation here.
 
+        if fmode == 0 and self.rock_ridge:
+            # The old path has no Rock Ridge file mode (Joliet, UDF or the
+            # boot catalog).  Use the mode of another name of the same
+            # contents if there is one, and a conservative 444 otherwise.
+            fmode = 0o0100444
+            if old_rec.inode is not None:
+                for link_rec, is_pvd_unused in old_rec.inode.linked_records:
+                    if isinstance(link_rec, dr.DirectoryRecord) and link_rec.rock_ridge is not None:
+                        fmode = link_rec.rock_ridge.get_file_mode()
+                        break
+
         num_bytes_to_add = self._add_hard_link_to_inode(old_rec.inode,
                                                         old_rec.get_data_length(),
                                                         fmode, boot_catalog_old,
